@@ -1309,7 +1309,12 @@ start_parameter (GMarkupParseContext *context,
   else
     param->nullable = FALSE;
 
-  if (allow_none && strcmp (allow_none, "1") == 0)
+  /* allow-none is the deprecated spelling of nullable/optional: when the
+   * GIR states one of those explicitly it has nothing to add (the scanner
+   * writes allow-none="1" next to nullable="1" on an inout parameter,
+   * which must not turn it into an optional one) */
+  if (allow_none && strcmp (allow_none, "1") == 0 &&
+      nullable == NULL && optional == NULL)
     {
       if (param->out)
         param->optional = TRUE;
